@@ -292,8 +292,7 @@ func (w *World) heightDerived(v ssa.Value, reach *Reach, depth int) bool {
 	case *ssa.Phi:
 		okAny := false
 		for _, e := range y.Edges {
-			ce := w.Canon(e)
-			if ce == "recv.lastBlockHeight" {
+			if w.isDefaultHeight(e, reach, 0) {
 				continue // default for height <= 0
 			}
 			if !w.heightDerived(e, reach, depth+1) {
@@ -335,7 +334,7 @@ func (w *World) heightDerived(v ssa.Value, reach *Reach, depth int) bool {
 				n := 0
 				for _, ref := range *a.Referrers() {
 					if st, ok := ref.(*ssa.Store); ok && st.Addr == a {
-						if w.Canon(st.Val) == "recv.lastBlockHeight" {
+						if w.isDefaultHeight(st.Val, reach, 0) {
 							continue
 						}
 						if !w.heightDerived(st.Val, reach, depth+1) {
@@ -359,7 +358,7 @@ func (w *World) heightDerived(v ssa.Value, reach *Reach, depth int) bool {
 							}
 							for _, r2 := range *z.Referrers() {
 								if st, isSt := r2.(*ssa.Store); isSt && st.Addr == ssa.Value(z) {
-									if w.Canon(st.Val) == "recv.lastBlockHeight" {
+									if w.isDefaultHeight(st.Val, reach, 0) {
 										continue
 									}
 									if !w.heightDerived(st.Val, reach, depth+1) {
@@ -405,6 +404,41 @@ func (w *World) heightDerived(v ssa.Value, reach *Reach, depth int) bool {
 	return false
 }
 
+// isDefaultHeight: v is the last committed height the controller keeps (the default
+// for a request without height), possibly handed down as a parameter by every caller.
+func (w *World) isDefaultHeight(v ssa.Value, reach *Reach, depth int) bool {
+	v = stripConv(v)
+	if w.Canon(v) == "recv.lastBlockHeight" {
+		return true
+	}
+	pr, ok := v.(*ssa.Parameter)
+	if !ok || depth > 3 {
+		return false
+	}
+	fn := pr.Parent()
+	idx := -1
+	for i, p := range fn.Params {
+		if p == pr {
+			idx = i
+		}
+	}
+	n := 0
+	for _, cs := range w.Callers(fn) {
+		if cs.Site == nil || !reach.Set[cs.Caller] {
+			continue
+		}
+		ai := idx
+		if cs.Site.Common().IsInvoke() {
+			ai = idx - 1
+		}
+		if ai < 0 || ai >= len(cs.Site.Common().Args) || !w.isDefaultHeight(cs.Site.Common().Args[ai], reach, depth+1) {
+			return false
+		}
+		n++
+	}
+	return n > 0
+}
+
 // heightFieldOfResult: field f of the struct (of type host) that the callee of call
 // fills in and returns is derived from the request height.
 func (w *World) heightFieldOfResult(call *ssa.Call, f int, host types.Type, reach *Reach, depth int) bool {
@@ -424,7 +458,7 @@ func (w *World) heightFieldOfResult(call *ssa.Call, f int, host types.Type, reac
 			}
 			for _, r2 := range *fa.Referrers() {
 				if st, isSt := r2.(*ssa.Store); isSt && st.Addr == ssa.Value(fa) {
-					if w.Canon(st.Val) == "recv.lastBlockHeight" {
+					if w.isDefaultHeight(st.Val, reach, 0) {
 						continue
 					}
 					if !w.heightDerived(st.Val, reach, depth+1) {
